@@ -13,6 +13,7 @@ import (
 	"encoding/binary"
 	"fmt"
 	"net"
+	"net/netip"
 	"testing"
 	"time"
 
@@ -109,7 +110,16 @@ func c07Scenario(r *sim.Run) {
 			w.mu.Unlock()
 			w.rm.RegConfig.EnableIPv4, w.rm.RegConfig.EnableIPv6 = true, true
 			w.rm.RegConfig.PhantomBlocklist = nil
-			if duplicate {
+			retry := false
+			if duplicate && !prevAdmitted[0] && !prevAdmitted[1] && (prev.breaks["forbidden-covert"] || prev.breaks["malformed-covert"]) && !prev.breaks["no-secret"] && !prev.breaks["no-payload"] && tp.Bool("retry-corrected") {
+				// the client whose registration was rejected for its covert address registers again
+				// with the same secret and an acceptable covert address
+				retry = true
+				pc := prev.c
+				pc.covert = "203.0.113.77:443"
+				m = &c07Msg{c: pc, breaks: map[string]bool{"retry": true}, phantom: prev.phantom, bytes: pc.regMessage(nil)}
+				r.Probe("retry_after_rejected_covert")
+			} else if duplicate {
 				m = prev
 			} else {
 				tr, src := 0, 0
@@ -274,6 +284,43 @@ func c07Scenario(r *sim.Run) {
 			w.mu.Unlock()
 
 			circ := stTransportName(c.tt) + "/" + c.source.String()
+			// whatever the history of messages for a secret, a registration that a connection can be
+			// matched to carries a covert address that passed the covert policy
+			for fam := 0; fam < 2; fam++ {
+				if m.phantom[fam] == nil || m.breaks["no-secret"] {
+					continue
+				}
+				for _, rg := range w.rm.GetRegistrations(m.phantom[fam]) {
+					d := rg.(*cj.DecoyRegistration)
+					if ap, err := netip.ParseAddrPort(d.Covert); err != nil || netip.MustParsePrefix("10.0.0.0/8").Contains(ap.Addr().Unmap()) {
+						r.Fail("C07/admitted/forbidden-covert/stored/"+circ, "%s: a registration connectable on %s carries the covert address %q, which is malformed or blocklisted", label, m.phantom[fam], d.Covert)
+						return
+					}
+				}
+			}
+			if retry {
+				// whether the corrected registration is taken or ignored as a duplicate is not
+				// specified; what is connectable must have been announced
+				for fam := 0; fam < 2; fam++ {
+					if c07Visible(w, m, fam) {
+						seen := false
+						w.mu.Lock()
+						for _, a := range w.anns {
+							if a.kind == "new" && a.phantom == m.phantom[fam].String() {
+								seen = true
+							}
+						}
+						w.mu.Unlock()
+						if !seen {
+							r.Fail("C07/valid-but-never-announced/retry/"+circ, "%s: connectable on %s but never announced", label, m.phantom[fam])
+							return
+						}
+					}
+				}
+				prev = m
+				prevAdmitted = [2]bool{c07Visible(w, m, 0), c07Visible(w, m, 1)}
+				continue
+			}
 			if duplicate {
 				// a repeat: admitted registrations stay admitted without a second announcement, no post;
 				// repeats of rejected registrations are don't-cares
